@@ -8,9 +8,18 @@ FRAMEWORK = ["data", "empty", "is_first", "is_last", "next", "previous", "custom
 NAME_POOL = ["alpha", "beta", "Zeta", "a1", "value", "codigo", "_hidden", "x", "nome", "Data"]
 
 
+def as_cell_value(x):
+    """the strings "LIST:a,b" stand for list-valued property values (the model sees an opaque text, the register holds a list)"""
+    if isinstance(x, str) and x.startswith("LIST:"):
+        return [int(t) for t in x[5:].split(",") if t]
+    return x
+
+
 def canon_cell(x):
     import pandas as pd
     import numpy as np
+    if isinstance(x, (list, tuple)):
+        return ["str", "LIST:" + ",".join(str(t) for t in x)]
     try:
         if x is None or x is pd.NaT or (isinstance(x, float) and x != x) or pd.isnull(x):
             return None
@@ -75,7 +84,7 @@ class CHECK(Check):
                             elif kd == "float":
                                 vals.append(["float", fl.f2b(rng.choice([0.0, 1.5, -2.25, 1e10, 3.0]))])
                             elif kd == "lit":
-                                vals.append(["str", rng.choice(["", "ab", "x y", "NaN"])])
+                                vals.append(["str", rng.choice(["", "ab", "x y", "NaN", "ab", "x y", "LIST:1,2", "LIST:7", "LIST:"])])
                             else:
                                 # years outside the datetime64[ns] window (1677-09-21 .. 2262-04-11) included: sentinel dates such as 9999-12-31 are common
                                 vals.append(["date", [rng.choice([1, 1000, 1650, 1677, 1678, 2262, 2263, 2300, 9999] + [rng.randint(1990, 2030)] * 9), rng.randint(1, 12), rng.randint(1, 28), rng.choice([0, 0, 13]), 0, 0, rng.choice([0, 0, 999999])]])
@@ -121,7 +130,7 @@ class CHECK(Check):
                 if i < 0:
                     data.append(DefaultRegister(data=d))
                 else:
-                    r = types[i](data=[fl.py_value(v) for v in d])
+                    r = types[i](data=[as_cell_value(fl.py_value(v)) for v in d])
                     regs.append(r)
                     data.append(r)
             fobjs.append(RegisterFile(data))
